@@ -429,13 +429,24 @@ func (f *Fn) solve() {
 				}
 				st = map[string]string{}
 				// "*" (the default after an unknown write) is joined like any other key
+				self := fmt.Sprintf("b%d", b.Index)
 				for k := range keys {
-					v0 := get(ps[0], k)
-					same := true
-					for _, p := range ps[1:] {
-						if get(p, k) != v0 {
+					// phi(x, self) = x: a value that went round the loop
+					// unchanged is the value at the loop's entry
+					v0, same, any := "", true, false
+					for _, p := range ps {
+						v := get(p, k)
+						if v == self {
+							continue
+						}
+						if !any {
+							v0, any = v, true
+						} else if v != v0 {
 							same = false
 						}
+					}
+					if !any {
+						v0 = self
 					}
 					if same {
 						st[k] = v0
@@ -452,6 +463,13 @@ func (f *Fn) solve() {
 				}
 			}
 			o := transfer(b, st, false)
+			if debugJoin != "" {
+				for k := range o {
+					if strings.HasSuffix(k, debugJoin) {
+						fmt.Printf("  iter %d b%d in=%s out=%s\n", iter, b.Index, get(st, k), get(o, k))
+					}
+				}
+			}
 			if !done[b.Index] || !eq(o, out[b.Index]) || !eq(st, f.in[b.Index]) {
 				changed = true
 			}
